@@ -168,6 +168,7 @@ pub ghost struct Heap {
     pub msg_closed: Seq<(Seq<char>, Seq<char>, MessageStatus)>,   // Store::set_message_with(pid, tid, status) calls
     pub ctx_log: Seq<Tid>,               // Task::create_context calls (entry points: action, tick, task event)
     pub upserts: Seq<Tid>,               // Cache::upsert(task) calls (task row written to the store)
+    pub saved: Seq<(Tid, TaskAbs)>,      // ... and what was written: the task as it was at the time of the call
     pub messages: Seq<(Tid, MessageState)>,   // messages handed to Emitter::emit_message for a task: (tid, message state)
     pub now: int,
     pub action: Option<Action>,          // Context.action (RefCell): the client action being processed
@@ -221,7 +222,7 @@ pub open spec fn fwd(a: Heap, b: Heap) -> bool {
     &&& forall|t: Tid| #[trigger] a.has(t) ==> b.has(t) && task_fwd(a.tasks[t], b.tasks[t])
     &&& forall|t: Tid| #[trigger] b.has(t) && !a.has(t) ==> b.tasks[t].revived <= 1
     &&& a.queue.is_prefix_of(b.queue) && a.task_events.is_prefix_of(b.task_events) && a.proc_events.is_prefix_of(b.proc_events) && a.msg_closed.is_prefix_of(b.msg_closed)
-    &&& a.upserts.is_prefix_of(b.upserts) && a.messages.is_prefix_of(b.messages) && a.ctx_log.is_prefix_of(b.ctx_log)
+    &&& a.upserts.is_prefix_of(b.upserts) && a.messages.is_prefix_of(b.messages) && a.ctx_log.is_prefix_of(b.ctx_log) && a.saved.is_prefix_of(b.saved)
 }
 pub proof fn lemma_task_fwd_trans(a: TaskAbs, b: TaskAbs, c: TaskAbs)
     requires task_fwd(a, b), task_fwd(b, c)
@@ -469,7 +470,7 @@ pub proof fn lemma_meta(a: Heap, b: Heap)
         b.tasks.dom() == a.tasks.dom(), forall|t: Tid| #[trigger] a.has(t) ==> meta_same(a.tasks[t], b.tasks[t]),
         b.proc_state == a.proc_state, b.next_seq == a.next_seq, b.hooks == a.hooks,
         a.queue.is_prefix_of(b.queue) && a.task_events.is_prefix_of(b.task_events) && a.proc_events.is_prefix_of(b.proc_events) && a.msg_closed.is_prefix_of(b.msg_closed),
-        a.upserts.is_prefix_of(b.upserts) && a.messages.is_prefix_of(b.messages) && a.ctx_log.is_prefix_of(b.ctx_log),
+        a.upserts.is_prefix_of(b.upserts) && a.messages.is_prefix_of(b.messages) && a.ctx_log.is_prefix_of(b.ctx_log) && a.saved.is_prefix_of(b.saved),
     ensures fwd(a, b), a.wf() && b.has(b.cur) ==> b.wf(),
 {
     reveal(Heap::wf);
@@ -711,9 +712,16 @@ impl CacheH {
     // cache/cache.rs: upsert writes the task row (and patches the proc row): logged
     #[verifier::external_body]
     pub fn upsert(&self, task: &Arc<Task>, Tracked(h): Tracked<&mut Heap>) -> (r: Result<()>)
-        ensures *final(h) == (Heap { upserts: old(h).upserts.push(task.id@), ..*old(h) }),
-                fwd(*old(h), *final(h)), old(h).wf() ==> final(h).wf(), final(h).cur == old(h).cur,     // consequences
+        ensures *final(h) == (Heap { upserts: old(h).upserts.push(task.id@), saved: old(h).saved.push((task.id@, old(h).tasks[task.id@])), ..*old(h) }),
+                fwd(*old(h), *final(h)), old(h).wf() ==> final(h).wf(), final(h).cur == old(h).cur,     // consequences (lemma_stub_upsert)
     { unimplemented!() }
+}
+pub proof fn lemma_stub_upsert(a: Heap, t: Tid)
+    ensures fwd(a, Heap { upserts: a.upserts.push(t), saved: a.saved.push((t, a.tasks[t])), ..a }),
+            a.wf() ==> (Heap { upserts: a.upserts.push(t), saved: a.saved.push((t, a.tasks[t])), ..a }).wf()
+{
+    reveal(Heap::wf);
+    lemma_meta(a, Heap { upserts: a.upserts.push(t), saved: a.saved.push((t, a.tasks[t])), ..a });
 }
 // R10: `X.unwrap_or_else(|err| error!(..))` -- the error is only logged
 #[verifier::external_body]
